@@ -14,7 +14,8 @@ pub const ANY: f64 = 1.0e7;
 
 pub struct Gen {
     pub rng: StdRng,
-    pending: Option<OpCall>,
+    /// calls already planned (operands are built first, the intended call follows)
+    pending: std::collections::VecDeque<OpCall>,
     pub allow_iter: bool,
     pub maxdim: usize,
     /// vector-heavy run: most calls go to BaseVector methods
@@ -27,11 +28,11 @@ fn oc(op: &str, a: usize, b: usize, dst: usize, ia: Vec<i64>) -> OpCall {
 
 impl Gen {
     pub fn new(rng: StdRng, allow_iter: bool, maxdim: usize) -> Gen {
-        Gen { rng, pending: None, allow_iter, maxdim, vec_bias: false }
+        Gen { rng, pending: std::collections::VecDeque::new(), allow_iter, maxdim, vec_bias: false }
     }
 
     pub fn reset(&mut self) {
-        self.pending = None;
+        self.pending.clear();
     }
 
     fn p(&mut self, x: f64) -> bool {
@@ -170,7 +171,14 @@ impl Gen {
         }
         let s = self.slot_except(&[call.a]);
         call.b = s;
-        self.pending = Some(call);
+        if self.p(0.3) {
+            // the second operand arrives through a transpose: same logical shape, but a memory layout
+            // that differs from the first operand's on back ends where transpose only swaps the strides
+            self.pending.push_back(oc("transpose", s, 0, s, vec![]));
+            self.pending.push_back(call);
+            return self.build_call(s, c, r);
+        }
+        self.pending.push_back(call);
         self.build_call(s, r, c)
     }
 
@@ -182,7 +190,7 @@ impl Gen {
         }
         let s = self.slot_except(&[call.a]);
         call.b = s;
-        self.pending = Some(call);
+        self.pending.push_back(call);
         self.build_vec(s, Some(len))
     }
 
@@ -196,7 +204,7 @@ impl Gen {
     }
 
     pub fn step(&mut self, meta: &[Meta]) -> OpCall {
-        if let Some(p) = self.pending.take() {
+        if let Some(p) = self.pending.pop_front() {
             return p;
         }
         if self.mats(meta, ANY).is_empty() {
@@ -210,16 +218,17 @@ impl Gen {
                 cat = 99;
             }
             let r = match cat {
-                0..=9 => Some(self.build_any()),
+                0..=7 => Some(self.build_any()),
+                8..=9 | 98 | 99 if !self.vec_bias || cat < 10 => self.layout_pair(meta),
                 10..=24 => self.structural(meta),
                 25..=35 => self.unary_arith(meta),
                 36..=46 => self.binary_elem(meta),
                 47..=58 => self.product(meta),
                 59..=64 => self.stack(meta),
                 65..=69 => self.element(meta),
-                70..=77 => self.reduce(meta),
-                78..=84 => self.stats(meta),
-                85..=87 => self.equality(meta),
+                70..=76 => self.reduce(meta),
+                77..=82 => self.stats(meta),
+                83..=87 => self.equality(meta),
                 _ => self.vector(meta),
             };
             if let Some(c) = r {
@@ -399,7 +408,8 @@ impl Gen {
     fn reduce(&mut self, meta: &[Meta]) -> Option<OpCall> {
         let mut ops = vec![
             "shape", "get_row_as_vec", "get_col_as_vec", "copy_row_as_vec", "copy_col_as_vec", "sum", "min", "max", "norm1",
-            "norm_inf", "norm_ninf", "norm2sq", "normp", "argmax", "unique", "max_diff", "min", "max", "argmax",
+            "norm_inf", "norm_ninf", "norm2sq", "normp", "argmax", "unique", "max_diff", "max_diff", "min", "max", "argmax",
+            "norm_half",
         ];
         if self.allow_iter {
             ops.push("iter");
@@ -411,6 +421,14 @@ impl Gen {
             "normp" => 20.0,
             _ => ANY,
         };
+        if op == "norm_half" {
+            // small operands only: (sum sqrt|x|)^2 must stay far below the fixed-point range
+            let c: Vec<usize> = self.mats(meta, 20.0).into_iter().filter(|&i| meta[i].r * meta[i].c <= 16).collect();
+            if c.is_empty() {
+                return None;
+            }
+            return Some(oc(op, self.pick(&c), 0, 0, vec![self.pick(&[1i64, 3, 5])]));
+        }
         let a = self.pick_m(meta, bound)?;
         Some(match op {
             "get_row_as_vec" | "copy_row_as_vec" => oc(op, a, 0, 0, vec![self.ru(1, meta[a].r) as i64]),
@@ -483,7 +501,104 @@ impl Gen {
         }
     }
 
+    /// An equality test on two matrices of DIFFERENT shape but EQUAL size whose storage buffers coincide
+    /// (in column-major and / or row-major order): the answer must be false although a comparison of the
+    /// buffers alone would say true.
+    fn equality_same_size(&mut self, meta: &[Meta]) -> Option<OpCall> {
+        let op = self.pick(&["eq", "approximate_eq", "eq"]);
+        let ia = if op == "eq" { vec![] } else { vec![self.ri(0, 3)] };
+        let k = self.ru(0, 4);
+        let s1 = self.any_slot();
+        let s2 = self.slot_except(&[s1]);
+        match k {
+            0 => {
+                // a vector-shaped matrix against its transpose (1xN vs Nx1: the same buffer in every layout)
+                let c: Vec<usize> = self.mats(meta, MED).into_iter().filter(|&i| (meta[i].r == 1) != (meta[i].c == 1)).collect();
+                if c.is_empty() {
+                    let n = self.ru(2, 8);
+                    return Some(if self.p(0.5) { self.build_call(s1, 1, n) } else { self.build_call(s1, n, 1) });
+                }
+                let a = self.pick(&c);
+                let s = self.slot_except(&[a]);
+                let swap = self.p(0.5);
+                self.pending.push_back(if swap { oc(op, s, a, 0, ia) } else { oc(op, a, s, 0, ia) });
+                Some(oc("transpose", a, 0, s, vec![]))
+            }
+            1 => {
+                // a matrix against a reshape of itself (the same row-major data)
+                let c: Vec<usize> = self.mats(meta, MED).into_iter().filter(|&i| meta[i].r * meta[i].c >= 2).collect();
+                if c.is_empty() {
+                    return None;
+                }
+                let a = self.pick(&c);
+                let n = meta[a].r * meta[a].c;
+                let divs: Vec<usize> = (1..=n).filter(|d| n % d == 0 && *d != meta[a].r).collect();
+                let nr = self.pick(&divs);
+                let s = self.slot_except(&[a]);
+                self.pending.push_back(oc(op, a, s, 0, ia));
+                Some(oc("reshape", a, 0, s, vec![nr as i64, (n / nr) as i64]))
+            }
+            2 => {
+                // constant matrices of equal size: fill(r1, c1, x) against fill(r2, c2, x)
+                let (r1, c1, r2, c2) = self.two_shapes();
+                let x = self.ri(-9, 9);
+                self.pending.push_back(oc("fill", 0, 0, s2, vec![r2 as i64, c2 as i64, x]));
+                self.pending.push_back(oc(op, s1, s2, 0, ia));
+                Some(oc("fill", 0, 0, s1, vec![r1 as i64, c1 as i64, x]))
+            }
+            _ => {
+                // the same data handed to the same constructor with two shapes: `new` (column-major data:
+                // identical column-major buffers) or `from_array` (identical row-major buffers)
+                let (r1, c1, r2, c2) = self.two_shapes();
+                let via = self.pick(&["new", "new", "from_array", "from_vec"]);
+                let d = self.data(r1 * c1);
+                self.pending.push_back(OpCall::new(via, 0, 0, s2, vec![r2 as i64, c2 as i64], d.clone(), vec![]));
+                self.pending.push_back(oc(op, s1, s2, 0, ia));
+                Some(OpCall::new(via, 0, 0, s1, vec![r1 as i64, c1 as i64], d, vec![]))
+            }
+        }
+    }
+
+    /// two different shapes with the same number of entries
+    fn two_shapes(&mut self) -> (usize, usize, usize, usize) {
+        loop {
+            let n = self.pick(&[2usize, 3, 4, 4, 6, 6, 6, 8, 8, 9, 10, 12, 12, 12]);
+            let divs: Vec<usize> = (1..=n).filter(|d| n % d == 0).collect();
+            let r1 = self.pick(&divs);
+            let r2 = self.pick(&divs);
+            if r1 != r2 {
+                return (r1, n / r1, r2, n / r2);
+            }
+        }
+    }
+
+    /// A binary call whose operands have the same logical shape but (on back ends where transpose only
+    /// swaps strides) different memory layouts: A as it is, B built with the transposed shape and then
+    /// transposed.  Results must not depend on how either operand is stored.
+    fn layout_pair(&mut self, meta: &[Meta]) -> Option<OpCall> {
+        let op = self.pick(&["max_diff", "max_diff", "max_diff", "approximate_eq", "eq", "add", "sub", "mul", "copy_from", "div", "add_mut", "mul_mut"]);
+        let bound = if op.starts_with("mul") { SMALL } else { MED };
+        let c: Vec<usize> = self.mats(meta, bound).into_iter().filter(|&i| meta[i].r >= 2 && meta[i].c >= 2).collect();
+        if c.is_empty() {
+            let dst = self.any_slot();
+            let (r, cc) = (self.ru(2, 5), self.ru(2, 5));
+            return Some(self.build_call(dst, r, cc));
+        }
+        // prefer a first operand that is not itself derived from a transpose
+        let plain: Vec<usize> = c.iter().copied().filter(|&i| !meta[i].tr).collect();
+        let a = if !plain.is_empty() && self.p(0.8) { self.pick(&plain) } else { self.pick(&c) };
+        let s = self.slot_except(&[a]);
+        let dst = self.any_slot();
+        let ia = if op == "approximate_eq" { vec![self.ri(0, 3)] } else { vec![] };
+        self.pending.push_back(oc("transpose", s, 0, s, vec![]));
+        self.pending.push_back(oc(op, a, s, dst, ia));
+        Some(self.build_call(s, meta[a].c, meta[a].r))
+    }
+
     fn equality(&mut self, meta: &[Meta]) -> Option<OpCall> {
+        if self.p(0.35) {
+            return self.equality_same_size(meta);
+        }
         let a = self.pick_m(meta, MED)?;
         let (r, c) = (meta[a].r, meta[a].c);
         let op = self.pick(&["eq", "approximate_eq"]);
@@ -492,7 +607,7 @@ impl Gen {
         if x < 0.35 {
             // an equal operand: clone first, compare next
             let s = self.slot_except(&[a]);
-            self.pending = Some(oc(op, a, s, 0, ia));
+            self.pending.push_back(oc(op, a, s, 0, ia));
             return Some(oc("clone", a, 0, s, vec![]));
         }
         if x < 0.65 {
@@ -557,16 +672,16 @@ impl Gen {
             12 | 13 | 14 => {
                 let op = self.pick(&[
                     "v_len", "v_to_vec", "v_sum", "v_norm1", "v_norm_inf", "v_norm_ninf", "v_norm2sq", "v_normp", "v_unique", "v_mean",
-                    "v_var", "v_std", "v_clone",
+                    "v_var", "v_std", "v_clone", "v_norm_half",
                 ]);
                 let bound = match op {
                     "v_sum" | "v_norm1" | "v_mean" => MED,
                     "v_norm2sq" | "v_var" | "v_std" => SMALL,
-                    "v_normp" => 20.0,
+                    "v_normp" | "v_norm_half" => 20.0,
                     _ => ANY,
                 };
                 let mut c = self.vecs(meta, bound);
-                if op == "v_var" || op == "v_std" {
+                if op == "v_var" || op == "v_std" || op == "v_norm_half" {
                     c.retain(|&i| meta[i].c <= 16);
                 }
                 if c.is_empty() {
@@ -575,6 +690,7 @@ impl Gen {
                 let a = self.pick(&c);
                 Some(match op {
                     "v_normp" => oc(op, a, 0, 0, vec![self.ri(2, 3)]),
+                    "v_norm_half" => oc(op, a, 0, 0, vec![self.pick(&[1i64, 3, 5])]),
                     "v_clone" => oc(op, a, 0, dst, vec![]),
                     _ => oc(op, a, 0, 0, vec![]),
                 })
@@ -586,7 +702,7 @@ impl Gen {
                 let x = self.rng.gen_range(0.0..1.0);
                 if x < 0.35 {
                     let s = self.slot_except(&[a]);
-                    self.pending = Some(oc(op, a, s, 0, ia));
+                    self.pending.push_back(oc(op, a, s, 0, ia));
                     return Some(oc("v_clone", a, 0, s, vec![]));
                 }
                 let len = if x < 0.65 { meta[a].c } else { self.other_dim(meta[a].c) };
